@@ -10,6 +10,9 @@ from dippy.cli import Classification, HandlerContext
 
 COMMANDS = ["sort"]
 
+# Short flags without an argument (may precede -o in one cluster, e.g. -ro)
+_SHORT_NOARG = frozenset("bdfgiMhnRrVcCmsuz")
+
 
 def _extract_output_file(tokens: list[str]) -> str | None:
     """Extract the output file from -o/--output flag."""
@@ -25,13 +28,24 @@ def _extract_output_file(tokens: list[str]) -> str | None:
         if t.startswith("-o") and len(t) > 2:
             return t[2:]
 
-        # --output file or --output=file
-        if t == "--output":
+        # --output file or --output=file (any unambiguous abbreviation: --ou, --outp=...)
+        name, eq, value = t.partition("=")
+        if len(name) >= 3 and "--output".startswith(name):
+            if eq:
+                return value
             if i + 1 < len(tokens):
                 return tokens[i + 1]
             return None
-        if t.startswith("--output="):
-            return t[9:]
+
+        # -o at the end of a cluster of argument-less short flags: -ro file, -rofile
+        if t.startswith("-") and not t.startswith("--") and "o" in t[1:]:
+            k = t.index("o", 1)
+            if all(c in _SHORT_NOARG for c in t[1:k]):
+                if k + 1 < len(t):
+                    return t[k + 1 :]
+                if i + 1 < len(tokens):
+                    return tokens[i + 1]
+                return None
 
         i += 1
 
